@@ -60,6 +60,15 @@ def run_thr(exe, seed, nthr, nops, timeout=600):
     return "ok", {"summary": summary}, ""
 
 
+def own_findings(run):
+    """the lead assembles known_findings.json; until then read this property's fragment directly"""
+    import json
+    have = {f["id"] for f in run.findings}
+    p = os.path.join(VERIF, "findings.d", "C19.json")
+    if os.path.exists(p):
+        run.findings += [f for f in json.load(open(p)) if f.get("status") == "open" and f["id"] not in have]
+
+
 def dynamic_part(run, tier, scr):
     """ties `descr_unchanged`: no operation on any type stores into the writable image of skeleton + generated objects"""
     dyn = {"variants": {}, "modules": [], "unreached_functions_all_variants": None, "shapes": None, "values": None, "gcov": None}
@@ -102,6 +111,16 @@ def dynamic_part(run, tier, scr):
                 run.violation("ro-image:selftest(%s)" % tag, {"what": "the read-only-image detector did not report the three canary stores "
                                                                         "(c19_canary.c) exactly: it cannot be trusted on this platform", "seen": ro["selftest"]}, no_input=True)
             run.count("dyn:ro:crash-recovered(not C19)", len(ro["crashes"]))
+            # probes of the open finding C19-oer-entry-null-codec (a crash of the unchanged library, recovered; not a reentrancy matter)
+            info["ro"]["probes"] = ro["probes"]
+            for pr in ro["probes"]:
+                if pr["sig"] is None:
+                    continue
+                if any(f["id"] == "C19-oer-entry-null-codec" for f in run.findings) and pr["probe"] == "oer-null-codec" and pr["sig"] == 11:
+                    run.known_finding("C19-oer-entry-null-codec", "%s:%s" % (pr["type"], pr["op"]))
+                else:
+                    run.violation("crash:%s(%s:%s)" % (pr["probe"], tag, pr["type"]),
+                                  {"what": "a probe of a library entry point ended in signal %s" % pr["sig"], "probe": pr, "asn1c_options": v["opts"]})
             # every table reachable from a descriptor (specifics and the maps behind them included) lies inside the watched image
             info["ro"]["descriptor_parts"] = ro["parts"]
             if ro["summary"] and (ro["parts"] is None or ro["parts"].get("outside", 1) != 0):
@@ -211,6 +230,7 @@ def dynamic_part(run, tier, scr):
 
 def main(tier):
     run = Run("C19", tier)
+    own_findings(run)
     scr = scratch()
     # 1. proofs
     ok, out = coq_build()
